@@ -14,7 +14,15 @@ import (
 )
 
 func refRun(p gen.Program) (in *refint.Interp, val *refint.V, err *refint.Err, abort string) {
+	return refRunOpt(p, false)
+}
+
+// refRunOpt: std also installs the reference's standard-library packages.
+func refRunOpt(p gen.Program, std bool) (in *refint.Interp, val *refint.V, err *refint.Err, abort string) {
 	in = refint.New()
+	if std {
+		in.InstallStdlib()
+	}
 	pos := 0
 	forms := make([]*refint.V, len(p.Forms))
 	for i, f := range p.Forms {
@@ -57,14 +65,24 @@ func checkProgram(p gen.Program, c *vcommon.Ctx) *vcommon.Failure { return check
 func checkStd(p gen.Program, c *vcommon.Ctx) *vcommon.Failure { return checkWith(realCfgStd, p, c) }
 
 func checkWith(cfg vcommon.Cfg, p gen.Program, c *vcommon.Ctx) *vcommon.Failure {
+	return checkOpt(cfg, false, p, c)
+}
+
+// checkOpt is the oracle.  ext (the "ext"/"stdlib" sub-properties, ext_test.go)
+// gives the reference the standard-library packages when the runtime has them
+// and also compares what was written to stderr (trace).
+func checkOpt(cfg vcommon.Cfg, ext bool, p gen.Program, c *vcommon.Ctx) *vcommon.Failure {
 	src := p.Source()
-	in, rv, rerr, abort := refRun(p)
+	in, rv, rerr, abort := refRunOpt(p, ext && !cfg.NoStdlib)
 	if abort != "" {
 		c.Class("skip/ref-abort")
 		return nil
 	}
 	if in.Unsupported != "" {
 		c.Class("skip/unsupported")
+		if ext {
+			c.Class("unsupported/" + in.Unsupported)
+		}
 		return nil
 	}
 	rt := vcommon.NewRuntime(cfg)
@@ -98,6 +116,14 @@ func checkWith(cfg vcommon.Cfg, p gen.Program, c *vcommon.Ctx) *vcommon.Failure 
 	if got, want := vcommon.TraceString(rt.Trace), refTrace(in); got != want {
 		return vcommon.Failf(classify("trace", src), "effect traces differ\nprogram:\n%s\nreal:\n%s\nreference:\n%s\nreal outcome: %s / reference: %s",
 			src, got, want, outcomeStr(out), refOutcome(rv, rerr))
+	}
+	if ext {
+		for k := range in.Used {
+			c.Class("ran/" + k)
+		}
+		if f := checkStderr(in, rt, src, c); f != nil {
+			return f
+		}
 	}
 	// 2. value or condition
 	if rerr != nil {
@@ -160,5 +186,9 @@ func TestCheck(t *testing.T) {
 		vcommon.S("small", 120000, 3000000, gen.GenProgram(2, 25, 4), checkProgram),
 		vcommon.S("medium", 60000, 1500000, gen.GenProgram(5, 70, 6), checkProgram),
 		vcommon.S("large", 8000, 200000, gen.GenProgram(6, 160, 8), checkStd),
+		// user-defined types, defconst, trace, qualified-symbol; string/math/base64
+		// (ext_test.go, gen/ext.go, refint/ext.go)
+		vcommon.S("ext", 40000, 600000, gen.GenProgramExt(5, 70, 6, 22, 0), checkExt),
+		vcommon.S("stdlib", 8000, 160000, gen.GenProgramExt(5, 70, 6, 6, 30), checkExtStd),
 	)
 }
